@@ -3,6 +3,7 @@ package routing
 import (
 	"context"
 	"fmt"
+	"net/http"
 	"time"
 
 	"github.com/thushan/olla/internal/config"
@@ -41,7 +42,15 @@ func (s *DiscoveryStrategy) GetRoutableEndpoints(
 	modelName string,
 	healthyEndpoints []*domain.Endpoint,
 	modelEndpoints []string,
-) ([]*domain.Endpoint, *domain.ModelRoutingDecision, error) {
+) (routable []*domain.Endpoint, decision *domain.ModelRoutingDecision, err error) {
+	defer func() {
+		// A model that no endpoint lists at all is "not found" (404) for this strategy too,
+		// not "temporarily unavailable" (503), whichever branch rejected it.
+		if decision != nil && decision.Action == ports.RoutingActionRejected && len(modelEndpoints) == 0 {
+			decision.StatusCode = http.StatusNotFound
+		}
+	}()
+
 	// first check if we already have healthy endpoints with the model
 	modelEndpointMap := make(map[string]bool)
 	for _, url := range modelEndpoints {
